@@ -244,10 +244,20 @@ class Run:
         self.cases = []          # (coq term, description) for c18_ok
         self.fails = []          # (key, desc, replay)
         self.rid = {}            # id(registry) -> small int (0 = application registry)
+        self.xsig = set()
 
     def case(self, term, desc, key):
         if term is None:
             return
+        if term.startswith("KXop ") and not self.thorough:
+            # the model's verdict depends only on (operator, the two classes, same registry or not): in the
+            # quick tier one representative per distinct (signature, observed outcome) goes to Coq
+            sig = ("KXop", term.split()[1], term.split()[2], desc.get("left", "")[:4], desc.get("right", "")[:4],
+                   desc.get("op"), term.rsplit(" ", 1)[1], str(desc.get("observed", ""))[:14])
+            if sig in self.xsig:
+                self.ck.case(key=key, nontrivial=True)
+                return
+            self.xsig.add(sig)
         self.cases.append((term, desc))
         self.ck.case(key=key, nontrivial=True, sample=desc if len(self.ck.samples) < 6 else None)
 
@@ -852,8 +862,8 @@ def part_subprocess(R, pools, objs):
     from pint.util import UnitsContainer
     rng, ck = R.rng, R.ck
     fpool = pools[0]
-    n_children = 40 if R.thorough else 8
-    per_child = 110 if R.thorough else 45
+    n_children = 40 if R.thorough else 6
+    per_child = 110 if R.thorough else 36
     ref = pint.UnitRegistry(cache_folder=None)
 
     fresh_cache = {}
